@@ -41,6 +41,9 @@ def gen_cases(tier, seed):
                 yield {'k': 'inject', 'cas': cas, 'shape': shape, 'fn': fn}
             for fn in ('in_a', 'out_a', 'in_hdl'):
                 yield {'k': 'copy-on', 'cas': cas, 'shape': shape, 'fn': fn}
+                if cas == 'mem':
+                    yield {'k': 'copy-on', 'cas': cas, 'shape': shape, 'fn': fn, 'late_force': True}     # rate 0, forced only after the capture
+                    yield {'k': 'copy-on', 'cas': cas, 'shape': shape, 'fn': fn, 'same_name': True}      # another class with the same name, no copy
             yield {'k': 'playback', 'cas': cas, 'shape': shape}
         for fn in ('in_a', 'out_a'):
             yield {'k': 'exception', 'cas': cas, 'fn': fn}
@@ -146,7 +149,16 @@ def _inject(case, box):
 def _copy_on(case, box):
     fn = case['fn']
     prog = {'params': {'copy': True}, 'steps': [{'fn': fn, 'a': ['x1'], 'ret': case['shape']}, {'do': 'mut'}, {'fn': 'out_b', 'a': ['x2']}]}
-    r = P.record(prog, inner=box.cassette)
+    if case.get('late_force'):
+        prog = {'params': {'copy': True, 'rate': 0.0}, 'steps': [{'fn': fn, 'a': ['x1'], 'ret': case['shape']}, {'do': 'force'}, {'do': 'mut'}, {'fn': 'out_b', 'a': ['x2']}]}
+    if case.get('same_name'):
+        env = P.Env(inner=box.cassette, name='Op', params={'copy': True})
+        P.RT.reset()
+        P.build_class(env.tr, 'Op', 'inst', None, {'copy': False}, env.funcs)   # an unrelated class that happens to have the same name
+        P.THIS.Op = env.cls
+        r = P.record(prog, env=env)
+    else:
+        r = P.record(prog, inner=box.cassette)
     if ('save', r.rec_id) not in r.log:
         return dict(viol=[viol('harness:not-saved', 'not saved', 'saved', r.log)], obs='unsaved')
     rec = box.fresh().get_recording(r.rec_id)
@@ -170,8 +182,15 @@ def _playback(case, box):
     al = P.all_aliases()
     viols = []
     maps = []
+    kept = None
     for rep in (1, 2, 3):
         pl = P.replay(env2, r.rec_id, prog)
+        if rep == 1:
+            kept = (pl.playback, P.outputs_map(pl.playback.playback_outputs, al), len(pl.playback.playback_outputs))
+        elif kept is not None and (P.outputs_map(kept[0].playback_outputs, al) != kept[1] or len(kept[0].playback_outputs) != kept[2]):
+            viols.append(viol('playback:earlier-result-changed-by-later-replay', 'a Playback object kept from an earlier play() changed when the same recorder replayed again',
+                              kept[1], P.outputs_map(kept[0].playback_outputs, al)))
+            kept = None
         maps.append((P.outputs_map(pl.playback.recorded_outputs, al), P.obs_canon(pl.obs)))
         before = {k: P.canon(pl.playback.original_recording.get_data(k)) for k in pl.playback.original_recording.get_all_keys()}
         for o in pl.playback.recorded_outputs:
